@@ -128,8 +128,10 @@ pub fn outcome_record(out: &Outcome) -> Value {
         "jobs": s.jobs.iter().map(|j| json!({"kind": j.kind, "size": j.size, "wrote": j.wrote, "write_done": j.write_done, "read": j.read,
             "eof": j.eof, "bad": j.bad_at.is_some(), "write_err": j.write_err.is_some(), "read_err": j.read_err.is_some(), "open_err": j.open_err})).collect::<Vec<_>>(),
         "server_uni": s.server_uni.iter().map(|(sid, r)| json!([sid, r.0, r.1, r.2.is_some(), r.3.is_some()])).collect::<Vec<_>>(),
+        // the client closes locally once its work is done: deterministic.  Whether the server has seen the
+        // CONNECTION_CLOSE before the scenario is torn down depends on the loss of that one datagram, i.e. on
+        // the library's own entropy (ciphertext bytes decide where bit flips land), so it is not part of the record.
         "client_term": s.client_term,
-        "server_term": s.server_term,
         "panics": out.panics.len(),
     })
 }
